@@ -8,6 +8,7 @@ mod ops;
 mod ops_solve;
 mod ops_reader;
 mod ops_goals;
+mod ops_parse;
 
 use std::io::{BufRead, Write};
 use std::panic;
